@@ -188,6 +188,12 @@ def interp_1d_conservative(phi, theta, target_theta_bins):
 """Mid level functions (xarray)"""
 
 
+def _kernel_dtype(*arrays):
+    """dtype of what the kernels return: they are compiled for floats only, so integer
+    (or mixed) input comes back as floating point, never as the dtype of the data."""
+    return np.result_type(*(a.dtype for a in arrays), np.float32)
+
+
 def input_handling(func):
     """Decorator that handles input naming for interpolations."""
 
@@ -245,7 +251,7 @@ def linear_interpolation(
         output_core_dims=[[target_dim]],
         exclude_dims=set((phi_dim, theta_dim)),
         dask="parallelized",
-        output_dtypes=[phi.dtype],
+        output_dtypes=[_kernel_dtype(phi, theta, target_theta_levels)],
     )
     return out
 
@@ -265,7 +271,7 @@ def conservative_interpolation(
         dask="parallelized",
         dask_gufunc_kwargs={"output_sizes": {"remapped": len(target_theta_levels) - 1}},
         # Since we are introducing a new dimension instead of changing it we need to declare the output size.
-        output_dtypes=[phi.dtype],
+        output_dtypes=[_kernel_dtype(phi, theta, target_theta_levels)],
     ).rename({"remapped": target_dim})
 
     # assign the target cell center
